@@ -29,6 +29,12 @@ var zzSpinners = []string{
 	"function spin() { while (true) { t(2); } } while (true) { t(1); spin(); }",
 	"function g(n) { foreach x in 1..300 { t(x); } return g(n); } function f() { return g(1); } foreach a in [1, 2] { f(); }",
 	"function deep(n) { if (n > 0) { return deep(n - 1); } while (true) { t(n); } } return deep(3);",
+	// loops that do nothing at all (no host call, no assignment): the machine
+	// must notice the deadline by itself
+	"while (true) { }",
+	"function spin() { while (true) { } } t(1); spin();",
+	"function spin() { for (1 == 1) { } } function outer() { spin(); return 1; } t(1); return outer();",
+	"function idle(n) { while (n > 0) { } return n; } foreach a in [1, 2] { t(a); idle(a); }",
 }
 
 // ZZ_C09_Cancel: wherever the script is spinning, once the context is done
@@ -106,7 +112,7 @@ func ZZ_C09_Finishes(sv *zzsv.T) {
 // cancels the context from inside its K-th callback (K symbolic); the script
 // must not get another callback in after that, and the run must fail.
 func ZZ_C09_CancelByWork(sv *zzsv.T) {
-	k := sv.Choice("script", len(zzSpinners))
+	k := sv.Choice("script", 8) // (the spinners that keep calling the host)
 	ctx := sv.Ctx("never_by_poll", 1000000)
 	sv.Assume(ctx.K == 1000000)
 	cancelAt := sv.Int64("cancel_at_call")
